@@ -61,6 +61,8 @@ struct Obj {            // an awaited future and its producer
   std::uint32_t cell = 0;  // written before the object is fulfilled, read by the coroutine after it resumed
   bool by_coroutine = false;  // produced by another coroutine (completion goes through final_suspend / symmetric transfer), not by Promise::Set
   int bound_ex = -1;          // unique + Promise::Set only: made by MakeContractOn(e): the future carries executor e (and hands it to whoever awaits it)
+  int prod_ex = -1;           // by_coroutine only: the producer coroutine hops to instrumented executor e first and completes inside one of its jobs
+  std::uint64_t prod_job = 0; // the instrumented job the producer completed in
 };
 
 struct Op {
@@ -87,6 +89,7 @@ struct LogEntry {
   std::uint64_t seq;
   bool threw;
   const void* cur_executor = nullptr;
+  std::uint64_t job = 0;  // sim::CurrentJob() right after the op
 };
 
 class Case;
@@ -137,6 +140,9 @@ class Case final : public sim::CaseBase {
           o.by_coroutine = g.Draw(3) == 2;
           if (!shared && !o.by_coroutine && g.Draw(3) == 2) {
             o.bound_ex = static_cast<int>(g.Draw(2));
+          }
+          if (o.by_coroutine && fault != 1 && g.Flip()) {
+            o.prod_ex = static_cast<int>(g.Draw(2));  // never a refusing one: the producer always gets to run
           }
           objs.push_back(o);
           return static_cast<int>(objs.size()) - 1;
@@ -199,7 +205,7 @@ class Case final : public sim::CaseBase {
           for (int oi : op.objs) {
             const Obj& o = objs[static_cast<std::size_t>(oi)];
             j.Obj().KV("kind", op.kind == kAwaitTask ? (op.task_is_coroutine ? "lazy coroutine" : "MakeTask") : (o.shared ? (o.global_shared >= 0 ? "global shared" : "shared") : "unique"))
-              .KV("outcome", outs[o.outcome]).KV("completes_at_ns", o.at).KV("produced_by", o.by_coroutine ? "a coroutine (co_return/throw)" : (o.bound_ex >= 0 ? "Promise::Set, made by MakeContractOn(e)" : "Promise::Set")).End();
+              .KV("outcome", outs[o.outcome]).KV("completes_at_ns", o.at).KV("produced_by", o.by_coroutine ? (o.prod_ex >= 0 ? "a coroutine running in instrumented executor e (co_return/throw)" : "a coroutine (co_return/throw)") : (o.bound_ex >= 0 ? "Promise::Set, made by MakeContractOn(e)" : "Promise::Set")).End();
           }
           j.EndArr();
           j.KV("form", op.iterator ? "iterator" : "variadic").KV("failure_caught", op.guarded);
@@ -237,7 +243,7 @@ class Case final : public sim::CaseBase {
         }
       }
     }
-    logs[static_cast<std::size_t>(k)].push_back(LogEntry{op, got, sim::CurrentExec(), sim::Seq(), threw, cur});
+    logs[static_cast<std::size_t>(k)].push_back(LogEntry{op, got, sim::CurrentExec(), sim::Seq(), threw, cur, sim::CurrentJob()});
   }
 
   static Outcome OutcomeOfCaught() {
@@ -279,7 +285,14 @@ class Case final : public sim::CaseBase {
   template <typename R>
   static R Producer(Case* c, std::size_t i) {
     Obj& o = c->objs[i];
-    if (o.at != 0) {
+    if (o.prod_ex >= 0) {
+      SIM_PROBE("producer_coroutine_in_an_instrumented_executor");
+      co_await yaclib::On(*c->ex[o.prod_ex]);
+      o.prod_job = sim::CurrentJob();
+      if (o.at != 0) {
+        sim::SleepNs(o.at);
+      }
+    } else if (o.at != 0) {
       co_await yaclib::On(*c->producer_exec);
       sim::SleepNs(o.at);
     }
@@ -500,6 +513,9 @@ class Case final : public sim::CaseBase {
             return;
           }
         }
+        if ((op.kind == kOn || op.kind == kAwaitOnMany || ((op.kind == kYield || op.kind == kAwaitSticky) && exec_known)) && cur_exec >= 0 && cur_exec < 2) {
+          proxied_hops.push_back({k, i});
+        }
         if ((op.kind == kOn || op.kind == kAwaitOnMany) && le.exec != 1 + op.ex) {
           sim::Fail("WRONG_EXECUTOR", "coroutine %zu: after %s with %s it runs with executor tag %d", k, kOpNames[op.kind], kExNames[op.ex], le.exec);
           return;
@@ -546,6 +562,47 @@ class Case final : public sim::CaseBase {
       }
     }
     CheckPredictedRefusal();
+    CheckHopsHaveTheirOwnJob();
+  }
+
+  // On(e), AwaitOn(e, ...), Yield and a Sticky await that suspended continue the coroutine by submitting it to an executor, so the
+  // coroutine comes back inside a job of its own: never inside the job another coroutine (or a producer coroutine) came back in.
+  // Sharing one means the executor was not asked, which is also how a stopped executor gets ignored.
+  std::vector<std::pair<std::size_t, std::size_t>> proxied_hops;  // (coroutine, log index): came back by being submitted to an instrumented executor
+
+  void CheckHopsHaveTheirOwnJob() {
+    if (sim::Failed()) {
+      return;
+    }
+    struct Hop {
+      std::uint64_t job;
+      int who;  // coroutine index, or -1 - object index for a producer
+      int op;
+    };
+    std::vector<Hop> hops;
+    for (std::size_t i = 0; i < objs.size(); ++i) {
+      if (objs[i].prod_job != 0) {
+        hops.push_back(Hop{objs[i].prod_job, -1 - static_cast<int>(i), -1});
+      }
+    }
+    for (auto& [k, i] : proxied_hops) {
+      const LogEntry& le = logs[k][i];
+      const std::uint64_t prev = i == 0 ? 0 : logs[k][i - 1].job;
+      if (le.job != 0 && le.job != prev) {
+        hops.push_back(Hop{le.job, static_cast<int>(k), le.op});
+      }
+    }
+    for (std::size_t a = 0; a < hops.size(); ++a) {
+      for (std::size_t b = a + 1; b < hops.size(); ++b) {
+        if (hops[a].job == hops[b].job && hops[a].who != hops[b].who && (hops[a].who >= 0 || hops[b].who >= 0)) {
+          const Hop& h = hops[a].who >= 0 ? hops[a] : hops[b];
+          sim::Fail("HOP_WITHOUT_SUBMISSION", "coroutine %d came back from op %d (%s) inside job %llu of executor tag %llu, the job %s came back in: it was not submitted to the executor",
+                    h.who, h.op, kOpNames[scripts[static_cast<std::size_t>(h.who)].ops[static_cast<std::size_t>(h.op)].kind], (unsigned long long)(h.job & 0xFFFFFFFFU),
+                    (unsigned long long)(h.job >> 32U), (&h == &hops[a] ? hops[b].who : hops[a].who) >= 0 ? "another coroutine" : "the producer coroutine of the awaited object");
+          return;
+        }
+      }
+    }
   }
 
   // One coroutine, one executor that refuses every submission from its k-th on: the coroutine is then the only submitter
@@ -850,5 +907,5 @@ R Interp(Case* c, int k) {
 }  // namespace
 
 SIM_HARNESS("C13", "c13_coro", Case,
-            "REFUSAL_IGNORED RESUMED_EARLY WRONG_VALUE WRONG_RESULT WRONG_ORDER WRONG_EXECUTOR LOST_RESUME RAN_PAST_END AWAIT_LEFT_FUTURE_UNUSABLE FRAME_CORRUPT LOST DEADLOCK NO_PROGRESS "
+            "REFUSAL_IGNORED HOP_WITHOUT_SUBMISSION RESUMED_EARLY WRONG_VALUE WRONG_RESULT WRONG_ORDER WRONG_EXECUTOR LOST_RESUME RAN_PAST_END AWAIT_LEFT_FUTURE_UNUSABLE FRAME_CORRUPT LOST DEADLOCK NO_PROGRESS "
             "LEAK LEAK_OBJECT DOUBLE_DESTROY USE_AFTER_DESTROY GARBAGE_READ MOVED_FROM_READ JOB_LOST EXECUTOR_REF_LEAK CRASH:*")
